@@ -92,3 +92,14 @@ Fixpoint np_mapM {A B} (f : A -> option B) (l : list A) : option (list B) :=
               | None => None
               end
   end.
+
+(* for j in range(n-1, -1, -1): if c(j): s = f(j, s); break      (c may raise) *)
+Fixpoint np_first_desc {St} (n : nat) (c : nat -> option bool) (f : nat -> St -> option St) (s : St) : option St :=
+  match n with
+  | O => Some s
+  | S j => match c j with
+           | None => None
+           | Some true => f j s
+           | Some false => np_first_desc j c f s
+           end
+  end.
